@@ -209,7 +209,7 @@ func isContainsUnconditionalIDField(selectionSet ast.SelectionSet) bool {
 
 // withDirectives returns the selections with the directives added to each of them
 func withDirectives(selectionSet ast.SelectionSet, directives ast.DirectiveList) ast.SelectionSet {
-	if len(directives) == 0 {
+	if len(directives) == 0 || len(selectionSet) == 0 {
 		return selectionSet
 	}
 	result := make(ast.SelectionSet, 0, len(selectionSet))
@@ -220,6 +220,10 @@ func withDirectives(selectionSet ast.SelectionSet, directives ast.DirectiveList)
 			cpy.Directives = append(append(ast.DirectiveList{}, s.Directives...), directives...)
 			result = append(result, &cpy)
 		case *ast.InlineFragment:
+			cpy := *s
+			cpy.Directives = append(append(ast.DirectiveList{}, s.Directives...), directives...)
+			result = append(result, &cpy)
+		case *ast.FragmentSpread:
 			cpy := *s
 			cpy.Directives = append(append(ast.DirectiveList{}, s.Directives...), directives...)
 			result = append(result, &cpy)
@@ -268,11 +272,51 @@ func mergeFieldsWithSameKey(selectionSet ast.SelectionSet) ast.SelectionSet {
 			result = append(result, sel)
 			continue
 		}
-		merged := *result[i].(*ast.Field)
-		merged.SelectionSet = append(append(ast.SelectionSet{}, merged.SelectionSet...), f.SelectionSet...)
-		result[i] = &merged
+		result[i] = mergeFieldWithSameKey(result[i].(*ast.Field), f, func(a, b ast.SelectionSet) ast.SelectionSet {
+			return append(a, b...)
+		})
 	}
 	return result
+}
+
+// mergeFieldWithSameKey joins a later field into (a copy of) the earlier one which answers under the same
+// response key. The field is part of the answer as soon as one of its selections is: when one of the two is
+// selected unconditionally the merged field is too, and the directives of the other one (@skip, @include)
+// go on with the selections it brought along
+func mergeFieldWithSameKey(earlier, later *ast.Field, join func(a, b ast.SelectionSet) ast.SelectionSet) *ast.Field {
+	merged := *earlier
+	es, ls := earlier.SelectionSet, later.SelectionSet
+	if !sameDirectives(earlier.Directives, later.Directives) {
+		switch {
+		case len(later.Directives) == 0:
+			merged.Directives = nil
+			es = withDirectives(es, earlier.Directives)
+		case len(earlier.Directives) == 0:
+			ls = withDirectives(ls, later.Directives)
+		}
+	}
+	if len(es) != 0 || len(ls) != 0 {
+		merged.SelectionSet = join(append(ast.SelectionSet{}, es...), ls)
+	}
+	return &merged
+}
+
+func sameDirectives(a, b ast.DirectiveList) bool {
+	if len(a) != len(b) {
+		return false
+	}
+	for i := range a {
+		if a[i].Name != b[i].Name || len(a[i].Arguments) != len(b[i].Arguments) {
+			return false
+		}
+		for j, arg := range a[i].Arguments {
+			other := b[i].Arguments[j]
+			if arg.Name != other.Name || arg.Value.String() != other.Value.String() {
+				return false
+			}
+		}
+	}
+	return true
 }
 
 func addSelectionSetToSanitizedResult(s ast.SelectionSet, ss ...ast.Selection) ast.SelectionSet {
@@ -287,14 +331,11 @@ func addSelectionSetToSanitizedResult(s ast.SelectionSet, ss ...ast.Selection) a
 			s = append(s, sel)
 			continue
 		}
-		if len(f.SelectionSet) == 0 {
-			continue
-		}
 		// fields which answer under the same response key are one field for the client:
 		// the selections of the later one are merged into (a copy of) the earlier one
-		merged := *s[i].(*ast.Field)
-		merged.SelectionSet = addSelectionSetToSanitizedResult(append(ast.SelectionSet{}, merged.SelectionSet...), f.SelectionSet...)
-		s[i] = &merged
+		s[i] = mergeFieldWithSameKey(s[i].(*ast.Field), f, func(a, b ast.SelectionSet) ast.SelectionSet {
+			return addSelectionSetToSanitizedResult(a, b...)
+		})
 	}
 	return s
 }
